@@ -10,7 +10,9 @@ RULE = ("history: the C01 histories with fingerprint() calls interleaved (after 
         "the fingerprint of a freshly rebuilt object. sens: for vectors over a pool containing hash-equal pairs (1/True/1.0, "
         "-1/-2) every (position, new value) write through a random path (item, slice, mask, index list, promotion, table cell, "
         "column view, attribute replacement) and every adjacent swap: the vector's and the containing table's fingerprints must "
-        "change iff the element hashes changed. non-trivial = a fingerprint() was observed after an in-place write to an object "
+        "change iff the element hashes changed. tsens: ONE table-level write changing cells of several columns (every exchange of two "
+        "cells between columns of 2-3 column tables, transposition of square tables, random row / region / whole-table "
+        "assignments): the table fingerprint must change iff the cell hashes changed. non-trivial = a fingerprint() was observed after an in-place write to an object "
         "that had been fingerprinted before (history) / the written value differs in hash (sens)")
 ASSUMPTIONS = ["elements are scalars (no nested lists/sets as elements); names are not part of a fingerprint",
                "Python's hash() of the element values is the oracle for element hashes (str hashes are per-process)"]
@@ -21,7 +23,9 @@ LEVEL_TEXT = ("Proof: (1) in the heap model, after ANY operation sequence every 
               "read-only operations never change it (readonly_unchanged), a write clears exactly the written vector's memo "
               "(write_then_read). (2) For the constants P, B read from the source on this run (coprimality checked in the kernel): "
               "changing any element to one whose hash differs mod P changes the vector's fingerprint at every position and length "
-              "(write_changes) and the fingerprint of the table containing it (table_changes); swapping neighbours with different "
+              "(write_changes) and the fingerprint of the table containing it (table_changes, comb_changes); one table-level write exchanging "
+              "two cells along an anti-diagonal is noticed (antidiagonal_exchange_changes: the table's own base BT with BT - B prime to "
+              "P; same_base_transpose_collides is the proved counterexample for the old scheme, repaired in /repo); swapping neighbours with different "
               "hashes changes it (order_matters). The exact condition is 'hashes differ modulo P', which is strictly stronger than "
               "'hash() tells them apart' — congruent_hashes_collide_counterexample proves the gap, recorded as known finding "
               "C16/hash-congruent-mod-P. Tied to the code by trace validation (model answer = real fingerprint() at every observed "
@@ -75,6 +79,22 @@ def generate(rng, tier):
         base = [rng.choice([1, 0, 2, -1, "a", None]) for _ in range(n)]
         yield {"fam": "nested", "vals": base, "i": rng.randrange(n), "new": rng.choice([5, 7, "b", None, 2.5]),
                "other": [rng.choice([7, 8]) for _ in range(n)], "path": rng.choice(["view", "cell", "none"])}
+    # table-level writes that change cells of several columns at once: exchanges between columns (same row, anti-diagonal,
+    # diagonal), transposition of a square table, row / region / whole-table assignment
+    for k in (2, 3):
+        for n in (1, 2, 3):
+            base = [[10 * (j + 1) + i for i in range(n)] for j in range(k)]
+            for (c1, r1) in [(a, b) for a in range(k) for b in range(n)]:
+                for (c2, r2) in [(a, b) for a in range(k) for b in range(n)]:
+                    if c1 < c2:
+                        yield {"fam": "tsens", "cols": base, "how": "swap", "a": [c1, r1], "b": [c2, r2]}
+            if k == n:
+                yield {"fam": "tsens", "cols": base, "how": "transpose"}
+    for _ in range(200 if tier == "quick" else 4000):
+        k, n = rng.randint(2, 4), rng.randint(1, 4)
+        base = [[rng.choice([1, 0, 2, -1, 3, 7]) for _ in range(n)] for _ in range(k)]
+        new = [[x if rng.random() < 0.6 else rng.choice([1, 0, 2, -1, 3, 7]) for x in c] for c in base]
+        yield {"fam": "tsens", "cols": base, "how": rng.choice(["whole", "rows", "region"]), "new": new}
     for i in range(4000 if tier == "quick" else 24000):
         yield {"fam": "history", "seed": rng.randrange(1 << 30), "nsteps": 12 if tier == "quick" or i % 3 else 36}
 
@@ -105,7 +125,47 @@ def _nested(spec):
             "impl": {"o_before": ob, "o_after": oa, "o_rebuilt": rebuilt}}
 
 
+def _tsens(spec):
+    from serif import Vector, Table
+    cols = [list(c) for c in spec["cols"]]
+    k, n = len(cols), len(cols[0])
+    how = spec["how"]
+    if how == "swap":
+        (c1, r1), (c2, r2) = spec["a"], spec["b"]
+        new = [list(c) for c in cols]
+        new[c1][r1], new[c2][r2] = cols[c2][r2], cols[c1][r1]
+    elif how == "transpose":
+        new = [[cols[j][i] for j in range(k)] for i in range(n)]
+    else:
+        new = [list(c) for c in spec["new"]]
+    with warnings.catch_warnings():
+        warnings.simplefilter("ignore")
+        try:
+            t = Table([Vector(list(c), name="c%d" % j) for j, c in enumerate(cols)])
+            tb = t.fingerprint()
+            for c in t.cols():
+                c.fingerprint()                     # every memo warm
+            if how == "rows":
+                for i in range(n):
+                    t[i] = [new[j][i] for j in range(k)]
+            elif how == "region":
+                t[0:n, 0:k] = Table([Vector(list(c)) for c in new])
+            else:
+                t[0:n] = Table([Vector(list(c)) for c in new])
+            ta = t.fingerprint()
+            got = [list(c) for c in t.cols()]
+            rebuilt = Table([Vector(list(c), name="c%d" % j) for j, c in enumerate(got)]).fingerprint()
+        except Exception as e:
+            return {"skip": "write refused: " + type(e).__name__}
+    if got != new:
+        return {"skip": "contents after the write are not the assigned cells"}
+    return {"fam": "tsens", "case": {"cols": [hashes(c) for c in cols], "cols2": [hashes(c) for c in got]},
+            "impl": {"t_before": tb, "t_after": ta, "t_rebuilt": rebuilt}}
+
+
 def execute(spec):
+    if spec["fam"] == "tsens":
+        return _tsens(spec)
     if spec["fam"] == "sens":
         return _sens(spec)
     if spec["fam"] == "nested":
@@ -231,6 +291,8 @@ def _history(spec):
 
 
 def nontrivial(spec, wire):
+    if spec["fam"] == "tsens":
+        return wire["case"]["cols"] != wire["case"]["cols2"]
     if spec["fam"] == "nested":
         return wire["case"]["hs"] != wire["case"]["hs2"]
     if spec["fam"] == "sens":
@@ -239,6 +301,8 @@ def nontrivial(spec, wire):
 
 
 def histogram(spec, wire):
+    if spec["fam"] == "tsens":
+        return ["tsens:" + spec["how"]]
     if spec["fam"] == "nested":
         return ["nested:" + spec["path"]]
     if spec["fam"] == "sens":
@@ -250,7 +314,7 @@ def histogram(spec, wire):
 
 
 def shrink(spec):
-    if spec["fam"] in ("sens", "nested"):
+    if spec["fam"] in ("sens", "nested", "tsens"):
         return
     if "steps" not in spec:
         w = _history(spec)
@@ -263,6 +327,11 @@ def shrink(spec):
 
 
 def snippet(spec):
+    if spec["fam"] == "tsens":
+        return ("from serif import Vector, Table\n"
+                f"t = Table([Vector(c) for c in {spec['cols']!r}]); f0 = t.fingerprint()\n"
+                f"# {spec['how']}: {spec.get('a')} <-> {spec.get('b')} {spec.get('new', '')}\n"
+                "# write the new cells with one table-level assignment, then: print(f0, t.fingerprint())")
     if spec["fam"] == "nested":
         return (f"from serif import Table\nouter = Table([Table({{'a': {spec['vals']!r}}}), Table({{'c': {spec['other']!r}}})])\n"
                 f"f0 = outer.fingerprint(); outer.cols()[0].a[{spec['i']}] = {spec['new']!r}; print(f0, outer.fingerprint())")
